@@ -967,34 +967,34 @@ def history_body(ctx, case):
 
 
 # budgets: the runner multiplies quick by TWV_QUICK_SCALE (3) and thorough by TWV_THOROUGH_SCALE (5):
-# 900 / 20 000 cases per sub-check
+# 750 / 20 000 cases per sub-check
 SUBCHECKS = [
-    Sub("oversample_linspace", "hyp", oversample_linspace_body, strategy=oversample_case, quick=300, thorough=4000,
+    Sub("oversample_linspace", "hyp", oversample_linspace_body, strategy=oversample_case, quick=250, thorough=4000,
         clause="n-fold oversampling keeps every original element at every n-th position, fills the gaps linearly"),
-    Sub("oversample_piecewise", "hyp", oversample_piecewise_body, strategy=oversample_case, quick=300, thorough=4000,
+    Sub("oversample_piecewise", "hyp", oversample_piecewise_body, strategy=oversample_case, quick=250, thorough=4000,
         clause="n-fold oversampling keeps every original element and fills the gaps with the left value"),
-    Sub("extend_linspace", "hyp", extend_linspace_body, strategy=extend_linspace_case, quick=300, thorough=4000,
+    Sub("extend_linspace", "hyp", extend_linspace_body, strategy=extend_linspace_case, quick=250, thorough=4000,
         clause="extending adds exactly n per requested side, continues linearly (mirror point or explicit end value), "
                "original elements in the middle"),
-    Sub("extend_constant", "hyp", extend_constant_body, strategy=extend_constant_case, quick=300, thorough=4000,
+    Sub("extend_constant", "hyp", extend_constant_body, strategy=extend_constant_case, quick=250, thorough=4000,
         clause="extending adds exactly n per requested side, continues constantly, original elements in the middle"),
-    Sub("append_one_sample", "hyp", append_body, strategy=append_case, quick=300, thorough=4000,
+    Sub("append_one_sample", "hyp", append_body, strategy=append_case, quick=250, thorough=4000,
         clause="appending one sample continues x by its last step and y by its last (periodic: first) value"),
-    Sub("interval_index", "hyp", index_body, strategy=index_case, quick=300, thorough=4000,
+    Sub("interval_index", "hyp", index_body, strategy=index_case, quick=250, thorough=4000,
         clause="the interval view maps [i, j] to flat index i*n+j (plain int: flat index) for reads and writes"),
-    Sub("interval_views", "hyp", view_body, strategy=view_case, quick=300, thorough=4000,
+    Sub("interval_views", "hyp", view_body, strategy=view_case, quick=250, thorough=4000,
         clause="row-by-row layout with NaN padding; closed-interval view = rows plus next row's first element, "
                "with/without the last row; number of full intervals; length"),
-    Sub("integrals", "hyp", integral_body, strategy=integral_case, quick=300, thorough=4000,
+    Sub("integrals", "hyp", integral_body, strategy=integral_case, quick=250, thorough=4000,
         clause="rectangle / trapezoid rule, dispatcher and range sums equal the direct sums"),
-    Sub("average", "hyp", average_body, strategy=average_case, quick=300, thorough=4000,
+    Sub("average", "hyp", average_body, strategy=average_case, quick=250, thorough=4000,
         clause="block averaging returns each row's mean ignoring the padding and each row's first abscissa"),
-    Sub("roundtrip", "hyp", roundtrip_body, strategy=roundtrip_case, quick=300, thorough=4000,
+    Sub("roundtrip", "hyp", roundtrip_body, strategy=roundtrip_case, quick=250, thorough=4000,
         clause="averaging an n-fold piecewise-constant oversampling returns the input (x exactly, y to 2n ulp of each value)"),
-    Sub("interval_methods", "hyp", methods_body, strategy=methods_case, quick=240, thorough=3000,
+    Sub("interval_methods", "hyp", methods_body, strategy=methods_case, quick=200, thorough=3000,
         clause="the same extension / oversampling contracts when reached through IntervalArray (one interval per "
                "side; oversampled view keeps original row starts)"),
-    Sub("interval_history", "hyp", history_body, strategy=history_case, quick=300, thorough=4000,
+    Sub("interval_history", "hyp", history_body, strategy=history_case, quick=250, thorough=4000,
         clause="reads, writes, 2-D views, length, full-interval count, iteration and extensions interleaved on ONE "
                "object agree with a plain list model after every step (a view taken after a write shows the write)"),
 ]
